@@ -2151,6 +2151,12 @@ coap_read_session(coap_context_t *ctx, coap_session_t *session, coap_tick_t now)
         /* Need max space incase PDU is updated with updated token etc. */
         pdu = coap_pdu_init(0, 0, 0, coap_session_max_pdu_rcv_size(session));
         if (!pdu) {
+          /*
+           * The frame is gone and nothing is retransmitted over a reliable
+           * transport: close the session (as the TCP branch does) rather
+           * than leave the peer waiting for ever.
+           */
+          coap_session_disconnected_lkd(session, COAP_NACK_NOT_DELIVERABLE);
           return;
         }
 
